@@ -368,3 +368,63 @@ def rule_G5(prog):
                            "mutates the list: after the first shift/grow/insert the copy is stale" % (m.local_name(l), reads[0]),
                            file=fn.file, line=reads[0])
     return r
+
+
+# ------------------------------------------------------------------ G6: shrinking is followed by an emptiness check
+def rule_G6(prog):
+    r = RuleResult("G6", "compaction never leaves an empty op behind: after `ops[j].shrink_left/shrink_right(..)` every path to the "
+                         "next loop back-edge or return passes an `ops[j].is_empty()` test whose true branch removes ops[j]")
+    for fn in prog.user_fns():
+        if not fn.mir:
+            continue
+        m = fn.mir
+        back = set(m.back_edges())
+        for bb, t in m.calls():
+            c = m.callee(t)
+            if not c or c["path"] not in ("types::DiffOp::shrink_left", "types::DiffOp::shrink_right"):
+                continue
+            r.instances += 1
+            idx = _elem_index_of(m, m.resolve_operand(t["args"][0]))
+            # blocks that test is_empty on the same element and remove it on the true edge
+            good = set()
+            for b2, t2 in m.calls():
+                c2 = m.callee(t2)
+                if c2 and c2["path"] == "types::DiffOp::is_empty" and _elem_index_of(m, m.resolve_operand(t2["args"][0])) == idx:
+                    sw = m.blocks[t2["target"]]["term"] if t2["target"] is not None else None
+                    if sw and sw["k"] == "switch" and sw["values"] == ["0"]:
+                        true_t = sw["otherwise"]
+                        reach = m.reach_from([true_t], stop=())
+                        removes = [b3 for b3, t3 in m.calls() if (m.callee(t3) or {}).get("path") == "std::vec::Vec::<T, A>::remove" and
+                                   (b3 == true_t or m.dominates(true_t, b3)) and _lin_idx(m, m.resolve_operand(t3["args"][1])) == idx]
+                        if removes:
+                            good.add(b2)
+            # every path from the shrink to a back edge / return passes a good block
+            seen = set()
+            stack = [t["target"]] if t["target"] is not None else []
+            escaped = None
+            while stack:
+                b = stack.pop()
+                if b in seen or m.blocks[b]["cleanup"]:
+                    continue
+                seen.add(b)
+                if b in good:
+                    continue
+                tt = m.blocks[b]["term"]
+                if tt["k"] == "return":
+                    escaped = b
+                    break
+                for s_ in m.succs(b):
+                    if (b, s_) in back:
+                        escaped = b
+                        break
+                    stack.append(s_)
+                if escaped is not None:
+                    break
+            ok = escaped is None
+            r.ob(ok, "%s: `%s` line %d: emptiness of ops[%s] checked (and removed) on every path: %s" % (
+                fn.path, t.get("src", ""), t["line"], _fmt_idx(idx or {}), ok))
+            if not ok:
+                r.find(fn.path, "shrink-unchecked:%s" % _fmt_idx(idx or {}),
+                       "after `%s` a path reaches the end of the iteration without testing `ops[%s].is_empty()` and removing it: a "
+                       "zero-length op may stay in the script" % (t.get("src", ""), _fmt_idx(idx or {})), file=fn.file, line=t["line"])
+    return r
